@@ -514,7 +514,20 @@ func (m *Machine) Render(root string) error {
 			w(filepath.Join(t, "cluster_id"), strconv.Itoa(c.Cluster))
 		}
 		w(filepath.Join(t, "core_id"), strconv.Itoa(c.Core))
-		w(filepath.Join(t, "core_cpus_list"), ints(c.Siblings))
+		if m.HasDieID || m.HasCluster {
+			w(filepath.Join(t, "core_cpus_list"), ints(c.Siblings))
+		} else {
+			// a kernel old enough to know neither die_id nor cluster_id has
+			// no core_cpus_list either, only the legacy names (and
+			// core_siblings_list means the CPUs of the package there)
+			var pkg []int
+			for _, o := range m.CPUs {
+				if o.Online && o.Pkg == c.Pkg {
+					pkg = append(pkg, o.ID)
+				}
+			}
+			w(filepath.Join(t, "core_siblings_list"), ints(pkg))
+		}
 		w(filepath.Join(t, "thread_siblings_list"), ints(c.Siblings))
 		if m.HasCpufreq {
 			f := filepath.Join(dir, "cpufreq")
